@@ -97,6 +97,9 @@ def gen_case(rng, index, tier):
     case['twin'] = twin
     case['history'] = hist
     case['remove_parent'] = rng.random() < 0.2
+    # the directory the entry was trashed from has since been moved away and a
+    # symbolic link left in its place (original locations are strings)
+    case['relink_parent'] = not case['remove_parent'] and rng.random() < 0.18
     case['restore_from'] = rng.choice(['orig', 'orig', 'ancestor', 'ancestor',
                                        'root', 'arg-path', 'arg-parent'])
     case['sort'] = rng.choice([None, 'date', 'path', 'none'])
@@ -207,8 +210,23 @@ def run_case(case):
                 removed_parent = True
             except OSError:
                 pass
-        # ---- restore
+        # ---- ... or move it away and leave a symbolic link in its place
+        P_eff = P
         frm = case['restore_from']
+        pr = os.path.dirname(want_loc)
+        if case.get('relink_parent') and want_loc == ent_abs and \
+                pr not in [w.abs(m) for m in case['mounts']] and \
+                os.path.isdir(pr) and not os.path.islink(pr) and \
+                not (tdir + '/').startswith(pr + '/') and \
+                not os.path.lexists(pr + '.moved'):
+            os.rename(pr, pr + '.moved')
+            os.symlink(os.path.basename(pr) + '.moved', pr)
+            P_eff = os.path.dirname(P) + '.moved/' + os.path.basename(P)
+            obs['parent_replaced_by_link'] = 1
+            out['features'].append('parent-relinked')
+            if frm == 'orig':
+                frm = 'arg-parent'
+        # ---- restore
         rargs = []
         if case['sort']:
             rargs += ['--sort', case['sort']]
@@ -251,7 +269,7 @@ def run_case(case):
                      contracts=ALLC)
         acc(rr)
         sa = putcheck.norm_sig(w.snapshot())
-        sigR = snap.subtree(sa, P)
+        sigR = snap.subtree(sa, P_eff)
         only_link_mtime = sigR != sig0 and set(sigR) == set(sig0) and all(
             sigR[k] == sig0[k] or (sigR[k][0] == 'l' and sig0[k][0] == 'l' and
                                    sigR[k][:6] == sig0[k][:6]) for k in sig0)
@@ -271,7 +289,7 @@ def run_case(case):
         # frame of the restore: only P appears, the pair vanishes, parents created
         bad = []
         for k, x, y in snap.diff(sb, sa):
-            if k == P or k.startswith(P + '/'):
+            if k == P_eff or k.startswith(P_eff + '/'):
                 continue
             if k == o['info'] or k == o['payload'] or k.startswith(o['payload'] + '/'):
                 if y is None:
